@@ -2,17 +2,17 @@
 from props.common import *
 
 ALLOC_SRCS = [('pdmemory.c', ['-Dstatic=']), 'pmemory.c', ('util.c', ['-Dsuperlu_abort_and_exit=real_superlu_abort_and_exit'])]
-OPS = {1: 'user_malloc', 2: 'user_free', 3: 'WorkInit', 4: 'WorkFree-while-others-live', 5: 'expand-first-allocation', 6: 'WorkFree-last-thread', 7: 'SetupSpace-from-any-state'}
+OPS = {1: 'user_malloc', 2: 'user_free', 3: 'WorkInit', 4: 'WorkFree-while-others-live', 5: 'expand-first-allocation', 6: 'WorkFree-last-thread', 7: 'SetupSpace-from-any-state', 8: 'work-arrays-cleared'}
 
 def alloc_query(pid, op, size=64, timeout=900):
-    q = Query('%s.alloc.%s.size%d' % (pid, OPS[op], size), 'alloc_h.c', ALLOC_SRCS, defs={'OP': op, 'SIZE': size}, engine='sat',
+    q = Query('%s.alloc.%s.size%d' % (pid, OPS[op], size), 'alloc_h.c', ALLOC_SRCS + (['pdutil.c'] if op == 8 else []), defs={'OP': op, 'SIZE': size}, engine='sat',
               solver='kissat' if op in (1,) else 'minisat', unwind=6, timeout=timeout, group='user-workspace allocator, one step from an arbitrary valid state')
     q.unwind_big = 80
     return q
 
 def plan(tier, seed):
     size = 64 if tier != 'thorough' else 256
-    qs = [alloc_query('C14', op, size if op != 3 else max(size, 160)) for op in OPS]
+    qs = [alloc_query('C14', op, {3: max(size, 160), 8: 136}.get(op, size)) for op in OPS]
     # the real expert driver down to the start of the workers: caller workspace of any size / alignment (refusal, retries with
     # halved requests, success) and the system allocator refusing the factor arrays from any request on
     from props.C17 import leakdrv_plan
